@@ -32,6 +32,7 @@ struct Op
 
 struct Plan
 {
+  int junk = 0;   // index of the byte every fresh heap allocation is filled with (sim::junkHeap)
   int subject = 0;   // 0 OnlineAverage, 1 OnlineVariance, 2 Ring<Vector2d>, 3 Ring<Vector3d>
   int W = 1;         // window size / ring capacity
   int prec = 0;      // index into kPrecisions (statistics only)
@@ -266,7 +267,9 @@ Outcome runRing(const Plan & p, Ctx & c)
       // continue on a copy: either copy-constructed, or copy-assigned onto another ring object of a different capacity
       // that already holds items (the copy is a ring of THIS capacity holding THESE items)
       if ((opNo & 1) == 0) {
-        romea::core::RingOfEigenVector<Vec> * copy = new romea::core::RingOfEigenVector<Vec>(ring); ringPtr.reset(copy); SIM_PROBE("ring_continue_on_copy_constructed");
+        romea::core::RingOfEigenVector<Vec> * copy;
+        if (opNo & 2) {copy = new romea::core::RingOfEigenVector<Vec>(ring);} else {romea::core::RingOfEigenVector<Vec> tmp(ring); copy = new romea::core::RingOfEigenVector<Vec>(std::move(tmp)); SIM_PROBE("ring_continue_on_moved_to");}
+        ringPtr.reset(copy); SIM_PROBE("ring_continue_on_copy_constructed");
       } else {
         size_t otherCap = cap <= 8 ? cap + 5 : cap - 7;
         romea::core::RingOfEigenVector<Vec> * other = new romea::core::RingOfEigenVector<Vec>(otherCap);
@@ -379,9 +382,16 @@ struct PropC16
       case 3: v = (k % 2 ? -1 : 1) * 0.9 * L + r.uniform(-1, 1) * 1000 * precision; break;  // +-large
       case 4: v = (double)r.range(-64, 64) * unit; break;      // near the precision
       case 5: v = (double)r.range(-100000000, 100000000) * precision; break;  // exact multiples
+      case 7: {                                                // a few ulps beside a multiple of the precision
+        v = (double)r.range(-1000, 1000) * precision * (r.chance(0.3) ? 1000.0 : 1.0);
+        int n = (int)r.range(0, 3); double to = r.chance(0.5) ? 0.0 : (v < 0 ? -2 * L : 2 * L);
+        if (v == 0) {to = r.chance(0.5) ? -1.0 : 1.0;}
+        for (int q = 0; q < n; ++q) {v = std::nextafter(v, to);}
+        break;
+      }
       default: v = r.uniform(0, L); break;                     // non-negative
     }
-    if (exact) {v = std::nearbyint(v / unit) * unit;}
+    if (exact && regime != 7) {v = std::nearbyint(v / unit) * unit;}
     if (v > L) {v = L;}
     if (v < -L) {v = -L;}
     return v;
@@ -407,7 +417,7 @@ struct PropC16
     double pRestart = r.pick({0.0, 0.02, 0.1, 0.3});
     double pCopy = r.pick({0.0, 0.0, 0.05, 0.2});
     if (pRestart > 0) {SIM_COUNT(stats ? "fault.reset.configured" : "fault.clear.configured");}
-    int regime = (int)r.below(7);
+    int regime = (int)r.below(8);
     double c0 = drawValue(r, 2, precision, exact, 0, 0, 0) * 0.5;
     double c1 = drawValue(r, 4, precision, exact, 0, 0, 0) * 16;
     if (longRun) {
@@ -424,7 +434,7 @@ struct PropC16
       return p;
     }
     int maxLen = 10 * p.W;
-    int regime2 = (int)r.below(7); int switchAt = r.chance(0.4) ? (int)r.range(1, 3 * p.W + 2) : -1;
+    int regime2 = (int)r.below(8); int switchAt = r.chance(0.4) ? (int)r.range(1, 3 * p.W + 2) : -1;
     if (r.chance(0.3)) {regime = r.chance(0.5) ? 3 : 6; regime2 = 4;}   // large magnitudes first, near-precision values after
     int len = (int)r.range(0, r.chance(0.3) ? maxLen : std::min(maxLen, 3 * p.W + 4));
     int item = 1;
@@ -447,7 +457,13 @@ struct PropC16
     return p;
   }
 
-  Plan generate(uint64_t index) const
+  // heap contents are an input of the run like any other: every fresh allocation is filled with a byte chosen by the plan
+  Plan generate(uint64_t index) const {Plan p = generate0(index); p.junk = (int)(mix64(master ^ 0x6a756e6bULL, index) % 5); return p;}
+  Outcome execute(const Plan & p, Ctx & c) const {sim::junkHeap(p.junk); return execute0(p, c);}
+  Json toJson(const Plan & p) const {Json j = toJson0(p); j.set("heap_fill_index", p.junk); return j;}
+  Plan fromJson(const Json & j) const {Plan p = fromJson0(j); if (j.has("heap_fill_index")) {p.junk = (int)j["heap_fill_index"].i();} return p;}
+  std::vector<Plan> simpler(const Plan & p) const {std::vector<Plan> out = simpler0(p); if (p.junk != 0) {Plan q = p; q.junk = 0; out.push_back(q);} return out;}
+  Plan generate0(uint64_t index) const
   {
     if (index < scriptedPlans.size()) {return scriptedPlans[index];}
     index -= scriptedPlans.size();
@@ -456,7 +472,7 @@ struct PropC16
     return randomPlan(mix64(master, index), false);
   }
 
-  Outcome execute(const Plan & p, Ctx & c) const
+  Outcome execute0(const Plan & p, Ctx & c) const
   {
     switch (p.subject) {
       case 0: case 1: return runStats(p, c);
@@ -465,7 +481,7 @@ struct PropC16
     }
   }
 
-  Json toJson(const Plan & p) const
+  Json toJson0(const Plan & p) const
   {
     Json j = Json::object();
     j.set("subject", subjectName(p.subject)).set("subject_id", p.subject).set("W", p.W);
@@ -490,7 +506,7 @@ struct PropC16
     j.set("ops", ops);
     return j;
   }
-  Plan fromJson(const Json & j) const
+  Plan fromJson0(const Json & j) const
   {
     Plan p; p.subject = (int)j["subject_id"].i(); p.W = (int)j["W"].i();
     if (p.subject < 2) {p.prec = (int)j["precision_index"].i(); p.viaSetWindowSize = j["via_setWindowSize"].b();}
@@ -516,7 +532,7 @@ struct PropC16
     return true;
   }
 
-  std::vector<Plan> simpler(const Plan & p) const
+  std::vector<Plan> simpler0(const Plan & p) const
   {
     std::vector<Plan> out;
     removalCandidates(p.ops, [&](std::vector<Op> v) {Plan q = p; q.ops = std::move(v); out.push_back(q);});
@@ -598,7 +614,7 @@ struct PropC16
     d.set("rule",
       "A plan is (subject in {OnlineAverage, OnlineVariance, Ring<Vector2d>, Ring<Vector3d>}, W, precision, "
       "list of update/append, reset/clear and burst ops); per run the window, precision, value regime "
-      "(constant, ramp, full-range uniform, alternating +-large, near-precision, exact multiples, "
+      "(constant, ramp, full-range uniform, alternating +-large, near-precision, exact multiples, a few ulps beside a multiple of the precision, "
       "non-negative), restart probability and length (0..10*W, plus long runs of 10^4*W updates) are drawn "
       "from the run seed. After every single update/append/reset/clear the observable state is compared "
       "with a deque model. distinct = distinct hash of (subject, W, precision, op-kind sequence); "
